@@ -46,7 +46,7 @@ func (res *sliceRes) fieldsReadOf(p *Program, owners map[string]bool) map[string
 func (res *sliceRes) callsTo(name string) bool {
 	for v := range res.Vals {
 		if c, ok := v.(*ssa.Call); ok {
-			if cal := staticCallee(c); cal != nil && cal.Name() == name {
+			if cal := staticCallee(c); calleeIs(cal, name) {
 				return true
 			}
 		}
